@@ -11,7 +11,8 @@ SPEC = dict(
          "and one index directory (missing/empty/populated by earlier real runs, shards of other tools, foreign files, corrupt "
          "shard, multi-shard repositories); every step runs the real execute() as preview then with -f (sync with varying root "
          "sets incl. overlapping/duplicate/missing roots, or remove with name/source selectors); non-trivial = the preview "
-         "announces at least one removal or indexing, or fails.",
+         "announces at least one removal or indexing, or fails. 60 % of the histories start from an index brought up to date by a "
+         "set-up run; class labels decision=... record which IndexState branch each previewed decision came from.",
     trusted_base=["correspondence harness harness/overlay/cmd/zoekt-local-sync/zz_verif_c33_test.go (generator, output parser, snapshots, Go oracle)",
                   "shard file naming (index.shardName: QueryEscape, injective below 200 bytes) abstracted to the key (name, number)",
                   "IndexState's comparisons other than the name abstracted to one fingerprint (options hash, HEAD commit, zoekt.web-url)",
